@@ -17,6 +17,7 @@ import (
 var firstHistory *int
 var onlyGiven *int
 var withQueries bool
+var panicFaults bool
 
 func envSeed() int64 {
 	if s := os.Getenv("VERIF_SEED"); s != "" {
@@ -90,6 +91,7 @@ func main() {
 	iavl := fs.Bool("iavl", false, "IAVL-backed stores with a commit per transaction")
 	first := fs.Int("first", 1, "first history number (replays)")
 	onlyGiven = fs.Int("only", 0, "determinism: only this given history (replays)")
+	fs.BoolVar(&panicFaults, "panicfaults", false, "a refused ledger call panics instead of returning an error")
 	fs.BoolVar(&withQueries, "q", false, "also observe the state through all queries after every transaction")
 	firstHistory = first
 	fs.BoolVar(&MixedCaseMint, "mixed", false, "chain configuration with a mixed-case minting denom (uUSDC)")
